@@ -53,6 +53,9 @@ CHECKS = {
  "C10": dict(technique="TLA+ P-spec SockAbs with socket modes and life-cycle (closed, connected, listening, blocking, timeout, keepalive, backlog) as state; scripted and random call sequences on real PSocket objects; every return validated by TLC (SockTrace, mode life) incl. getter snapshot, elapsed time, poll usage and the system calls made",
              text="After every call all getters must equal the spec state; after close every I/O call must fail with NOT_AVAILABLE having made no system call, a second close touches nothing; timed calls fail with TIMED_OUT and not before T (monotonic clock), non-blocking calls return would-block / in-progress without polling, blocking calls without timeout poll with -1 and a parked receiver/acceptor returns only after the peer acts; new and accepted descriptors carry FD_CLOEXEC.",
              design_ref="3 C10", note="Trusted: " + TB + "; loopback only; a timed-out connect cannot be produced on loopback and is not covered."),
+ "C19": dict(technique="TLA+ I-spec Interrupt (issue / interrupted / re-issue loop with remaining-time accounting for sleep, fault injector, invariant Transparent, liveness Completes) model-checked by TLC; real SIGALRM storms (handler without SA_RESTART) and EINTR injected at every k-th invocation (k<=4) of clock_nanosleep / sem_wait / sem_open / shm_open into the real library; histories validated by TLC (InterruptTrace); socket calls under the same storms validated against SockAbs (SockTrace io)",
+             text="For sleep, semaphore acquire, shared-memory lock and creation/opening of named IPC objects, each with 0..4 consecutive injected interruptions and under timer storms from 200us to 50ms, the API outcome must be that of the uninterrupted call: sleep returns 0 and not before the requested time (monotonic clock), acquire/lock return only with the unit taken, creation still succeeds; parked socket receivers / acceptors and timed receives under storms must still satisfy the socket P-spec (no interrupted-call error, timeouts still fire).",
+             design_ref="3 C19", note="Trusted: " + TB + "; injected EINTR follows each call's own error convention; signals are delivered to the thread under test."),
 }
 NA = {
  "C17": "pure encode/decode fidelity against the platform's inet_pton/inet_ntop over all addresses: no state, transitions or histories for a TLA+ specification to constrain (DESIGN.md section 5)",
